@@ -254,6 +254,8 @@ def _sl(s):
 
 
 def _rbf(x1, x2):
+    from . import world
+    world.user_fn_yield()
     d = ((x1[:, None, :] - x2[None, :, :])**2).sum(-1)
     return np.exp(-0.5 * np.abs(d))
 
